@@ -106,6 +106,9 @@ type Exec struct {
 	quantum     time.Duration
 	timeDead    bool
 	free        bool
+	lockAll     bool
+	schedGID    uint64
+	autoCount   map[string]int
 	idleDead    bool
 	// IdleWaits counts the times the scheduler had nothing to choose and let virtual time run.
 	IdleWaits int
@@ -170,6 +173,9 @@ type Options struct {
 	TimeQuantum time.Duration
 	// LockPoints makes every vsync Lock/RLock of a registered goroutine a scheduling point (FINE).
 	LockPoints bool
+	// LockPointsAll extends LockPoints to goroutines the code under test starts itself (uploaders, async
+	// savers): they are named after the function that created them.
+	LockPointsAll bool
 }
 
 // Stats summarises an exploration.
@@ -304,9 +310,45 @@ func (x *Exec) ProcOfCaller() string {
 	return x.gids[gid]
 }
 
+// autoName gives a goroutine that the code under test started itself a stable name: the function that
+// created it plus the ordinal among the goroutines of that origin seen so far (LockPointsAll).
+func (x *Exec) autoName() string {
+	buf := make([]byte, 8192)
+	n := runtime.Stack(buf, false)
+	st := string(buf[:n])
+	tag := "?"
+	if i := strings.LastIndex(st, "created by "); i >= 0 {
+		tag = st[i+len("created by "):]
+		if j := strings.IndexAny(tag, " \n"); j >= 0 {
+			tag = tag[:j]
+		}
+		if j := strings.LastIndexByte(tag, '/'); j >= 0 {
+			tag = tag[j+1:]
+		}
+	}
+	gid := curGID()
+	x.mu.Lock()
+	defer x.mu.Unlock()
+	if x.autoCount == nil {
+		x.autoCount = map[string]int{}
+	}
+	x.autoCount[tag]++
+	name := fmt.Sprintf("bg[%s#%d]", tag, x.autoCount[tag])
+	x.gids[gid] = name
+	return name
+}
+
 // LockPoint is the FINE hook body: lock acquisitions of registered goroutines become scheduling points.
 func (x *Exec) LockPoint(kind string, free func() bool) {
 	name := x.ProcOfCaller()
+	if name == "" {
+		x.mu.Lock()
+		all := x.lockAll && !x.aborting
+		x.mu.Unlock()
+		if all && curGID() != x.schedGID {
+			name = x.autoName()
+		}
+	}
 	if name == "" {
 		return
 	}
@@ -574,6 +616,11 @@ func runOne(t *testing.T, sc *Scenario, opt *Options, prefix []string) *Exec {
 			defer func() { vsync.Hook = nil }()
 		}
 		sc.Start(x)
+		// (only now: Start itself runs on the scheduler's goroutine and may wait for helpers it starts)
+		x.schedGID = curGID()
+		x.mu.Lock()
+		x.lockAll = opt.LockPointsAll && !x.free
+		x.mu.Unlock()
 		for {
 			synctest.Wait()
 			x.mu.Lock()
